@@ -6,6 +6,9 @@ import Proofs.TsigExchange
 import Proofs.TsigReader
 import Proofs.TsigInject
 import Proofs.TsigFlip
+import Proofs.TsigName
+import Proofs.TsigCodec
+import Proofs.TsigRoundTrip
 /-!
 # C14 — TSIG MACs follow RFC 8945; genuine messages verify, altered ones never do
 
@@ -113,55 +116,62 @@ ARCOUNT incremented) is accepted by `validate` with the same key, request MAC, c
 time within the fudge window — whatever function the HMAC is.  The context handed on is the signer's. -/
 theorem sign_then_validate (H : Hmac) (e : AlgEntry) (he : e ∈ algTable) (key : Key) (hk : key.algorithm = e.name)
     (body ownerEnc : Bytes) (rd : Rdata) (now vnow : Nat) (rm : Bytes) (ctx : Option Ctx) (multi : Bool)
-    (hctx : ctx = none ∨ multi = true)
-    (hl : 12 ≤ body.length) (ho : OctetsOk body) (hc : rd16 body 10 + 1 < 65536)
+    (hl : 12 ≤ body.length) (ho : Tsig.OctetsOk body) (hc : rd16 body 10 + 1 < 65536)
     (halg : rd.algorithm = key.algorithm) (herr : rd.error = 0) (hother : rd.other.length ≤ 65535)
     (hwin : absDiff now vnow ≤ rd.fudge) :
     ∃ wire rd' ctx', signMessage H algTable body ownerEnc key rd now rm ctx multi = .ok (wire, rd', ctx')
       ∧ wire = appendTsig body ownerEnc rd'
       ∧ Tsig.validate H algTable wire key key.name rd' vnow rm body.length ctx multi = .ok ctx' := by
-  obtain ⟨e', he'⟩ := lookupAlg_mem algTable e he
-  have hgc : ∃ c0, getContext algTable key = .ok c0 := by
-    unfold getContext; rw [hk, he']; exact ⟨_, rfl⟩
-  obtain ⟨c0, hc0⟩ := hgc
-  -- `_digest` succeeds
-  have hdig : ∃ c, digest algTable body key rd (some now) rm ctx multi = .ok c := by
-    unfold digest
-    have hnot : ¬ rd.other.length > ConstsC14.otherMax := by simp [ConstsC14.otherMax]; omega
-    cases hm : (if multi then ctx else none) with
-    | none => simp only [hc0, hnot, if_false]; exact ⟨_, rfl⟩
-    | some c => simp only [hnot, if_false]; exact ⟨_, rfl⟩
-  obtain ⟨c, hd⟩ := hdig
-  have hms : ∃ c', maybeStartDigest algTable key (c.sign H) multi = .ok c' := by
-    unfold maybeStartDigest
-    cases multi <;> simp [hc0]
-  obtain ⟨c', hm⟩ := hms
-  refine ⟨_, { rd with timeSigned := now, mac := c.sign H }, c', ?_, rfl, ?_⟩
-  · simp [signMessage, sign, hd, hm]
-  · unfold Tsig.validate
-    rw [validateV_spec]
-    have h10 := rd16_appendTsig body ownerEnc { rd with timeSigned := now, mac := c.sign H } hl hc
-    have hnw := newWire_appendTsig body ownerEnc { rd with timeSigned := now, mac := c.sign H } hl ho hc
-    have hdc := digest_congr algTable body key rd { rd with timeSigned := now, mac := c.sign H } now rm ctx multi
-      rfl rfl rfl rfl rfl
-    simp only [h10, hnw, hdc, hd]
-    have : ¬ absDiff now vnow > rd.fudge := by omega
-    simp [this, hm, herr, halg, nameEq_refl, verifyWith]
+  obtain ⟨wire, rd', ctx', c, hs, hw, _, hv⟩ := sign_then_validate_gen H e he key hk body ownerEnc key.name rd now vnow rm
+    ctx multi hl ho hc (nameEq_refl _) halg herr hother hwin
+  exact ⟨wire, rd', ctx', hs, hw, by simp [Tsig.validate, hv]⟩
 
-/- Not proved (tie-only: every generated message is read back through `dns.message.from_wire`, and the model's
-`read` is compared with it on the same octets).  Full statement, reader level:
+/-- **sign, render, read** ("every signed message validates under the same key", at the level of
+`dns.message.from_wire`).  A message body that the section walk gets through (`BodyOk`: header written, counts
+right, no TSIG record), signed by the model of `Message.to_wire` with a key of the regenerated table and rendered
+with an owner-name encoding `o` that reads back as a name equal to the key's (`OwnerEncodes`: any encoding,
+compressed or not; `sign_then_read_uncompressed` discharges it for the plain encoding), is **accepted by the
+reader** with the same key, request MAC, context and `multi` at any time within the fudge window; the reader
+reports exactly the TSIG that was written (`rd'`: the template with time signed and MAC filled in), the message it
+saw under the TSIG is the body that was signed (`newWire wire body.length = body`), and the context it hands on
+is the signer's.  `H` is any function with at most 64 octets of output. -/
+theorem sign_then_read (H : Hmac) (strict : Bool) (key : Key) (body o : Bytes) (owner : Name) (rd : Rdata)
+    (now vnow : Nat) (rm : Bytes) (ctx : Option Ctx) (multi : Bool)
+    (hok : SignedOk H key body o owner rd now vnow) :
+    ∃ wire rd' ctx' c, signMessage H algTable body o key rd now rm ctx multi = .ok (wire, rd', ctx')
+      ∧ wire = appendTsig body o rd' ∧ SignedFields H rd rd' now
+      ∧ newWire wire body.length = body
+      ∧ read H algTable strict wire (.key key) vnow rm ctx multi
+          = .ok ⟨some ⟨owner, rd', some (c, rd'.mac)⟩, ctx'⟩ :=
+  sign_then_read_core H strict key body o owner rd now vnow rm ctx multi hok
 
-  theorem read_accepts_signed (H) (e ∈ algTable) (key) (hk : key.algorithm = e.name) (body) (rd) (now vnow rm)
-      (hbody : the skeleton walk of `body` by its own counts ends at `body.length` and meets no record of type TSIG)
-      (hname : WfName key.name ∧ isAbs key.name ∧ WfName key.algorithm ∧ isAbs key.algorithm) (octets, ARCOUNT < 65535,
-       time < 2^48, fudge/original id < 2^16, error = 0, |other| < 2^16, |now − vnow| ≤ fudge) :
-      ∃ wire rd' c', signMessage H algTable body (toWire key.name) key rd now rm none false = .ok (wire, rd', c')
-        ∧ ∃ r, read H algTable strict wire (.key key) vnow rm none false = .ok r
-            ∧ r.tsig = some ⟨key.name, rd', some (_, rd'.mac)⟩
+/-- the uncompressed owner name `toWire key.name` is such an encoding (C01: `Dec_plain`, `fromWireAux_of_Dec`) -/
+theorem sign_then_read_uncompressed (pre : Bytes) (n : Name) (hw : WfName n) (ha : isAbs n = true) :
+    OwnerEncodes pre (toWire n) n ∧ nameEq n n = true :=
+  ⟨ownerEncodes_plain pre n hw ha, nameEq_refl n⟩
 
-  What is missing: the round trip of `nameAt` over `toWire` for owner and algorithm name, of `rdataParse` over
-  `rdataWire`, and the replay of the body's walk inside the longer message.  `sign_then_validate` above is the same
-  statement one level down (at `dns.tsig.validate` on the rendered octets), which is where the MAC logic lives. -/
+/-- "… multi-message sequences", "any subset of intermediate messages unsigned": **a whole exchange**.  The sender
+signs the envelopes marked `signed` with `to_wire(multi=True, tsig_ctx=…)` and digests the unsigned ones whole into
+the running context; the receiver reads them one after the other with `multi=True`, handing `tsig_ctx` on.  For
+*every* pattern of signed and unsigned envelopes (RFC 8945 §5.3.1 demands that the first and last be signed and at
+least every 100th; the theorem needs none of that) every envelope is accepted, a TSIG is reported exactly for the
+signed ones, and nothing is rejected. -/
+theorem sign_then_read_exchange (H : Hmac) (strict : Bool) (key : Key) (rm : Bytes) (envs : List SEnv)
+    (hall : ∀ e ∈ envs, SEnv.Ok H key e) :
+    ∃ ws rs, signExchange H key rm none envs = .ok ws
+      ∧ readExchange H strict key rm none (ws.zip (envs.map SEnv.vnow)) = .ok rs
+      ∧ ws.length = envs.length
+      ∧ rs.map (fun r => r.tsig.isSome) = envs.map SEnv.isSigned :=
+  sign_then_read_exchange_core H strict key rm envs none hall
+
+/-- the reader's name decoding is C01's: the fuel-driven `nameAt` used so that the kernel can evaluate the reader
+is `Model.fromWireAux` (`nameFuel` always suffices), hence a decoded TSIG owner is a `Dec` derivation with strictly
+backward pointers and a well-formed name (`Proofs/NameWire.lean`), and conversely. -/
+theorem name_decoding_is_c01 (w : Bytes) (endp cur f : Nat) (acc : List Label) :
+    nameAt w endp (nameFuel w) cur cur f acc = fromWireAux w endp cur cur f acc
+      ∧ (∀ n, decodeName w cur = .ok n → ∃ ls fwd, Dec w cur cur ls fwd ∧ n = ls ++ [[]] ∧ WfName n)
+      ∧ (∀ ls fwd, Dec w cur cur ls fwd → WfName (ls ++ [[]]) → decodeName w cur = .ok (ls ++ [[]])) :=
+  ⟨nameAt_fuel w endp cur f acc, fun n h => decodeName_ok w cur n h, fun ls fwd hd hw => decodeName_of_Dec w cur ls fwd hd hw⟩
 
 /-! ## rejection logic -/
 
@@ -291,80 +301,107 @@ theorem request_mac_binding_rejects (H : Hmac) (tbl : List AlgEntry) (wire : Byt
 
 /-! ## the reader: what acceptance means, and what an alteration can and cannot do -/
 
-/-- "every message whose authenticated content was altered": **acceptance is sound.**  If the reader returns a
-message as signed (key `k`, stand-alone message), then the TSIG RR is the last record of the additional section
-(found at `s` by the section walk, class ANY, ending the message), its error field is 0, the time is within the
-fudge window, owner and algorithm equal the key's, and the MAC in the record is the (truncated) HMAC of exactly
-the RFC 8945 digest components *of the received message*. -/
-theorem accepted_carries_valid_mac (H : Hmac) (tbl : List AlgEntry) (strict : Bool) (w : Bytes) (k : Key) (now : Nat)
-    (rm : Bytes) (r : ReadOk) (f : Found)
-    (h : read H tbl strict w (.key k) now rm none false = .ok r) (hf : r.tsig = some f) :
-    ∃ s c, walkTo w = some s ∧ f.checked = some (c, f.rd.mac) ∧ c.sign H = f.rd.mac
+/-- "every message whose authenticated content was altered": **acceptance is sound**, for every kind of keyring (a
+`Key`, a `dict` of `bytes` secrets or `Key`s, a callable).  If the reader returns a message as signed and checked
+(stand-alone message), then the TSIG RR is the last record of the additional section (found at `s` by the section
+walk, class ANY, ending the message), the keyring resolved a key `k` for its owner name, its error field is 0, the
+time is within the fudge window, owner and algorithm equal the key's, and the MAC in the record is the (truncated)
+HMAC of exactly the RFC 8945 digest components *of the received message*. -/
+theorem accepted_carries_valid_mac (H : Hmac) (tbl : List AlgEntry) (strict : Bool) (w : Bytes) (kr : Keyring) (now : Nat)
+    (rm : Bytes) (r : ReadOk) (f : Found) (c0 : Ctx) (m0 : Bytes)
+    (h : read H tbl strict w kr now rm none false = .ok r) (hf : r.tsig = some f) (hck : f.checked = some (c0, m0)) :
+    ∃ s c k, walkTo w = some s ∧ resolveKey kr f.owner f.rd = .ok (some k)
+      ∧ f.checked = some (c, f.rd.mac) ∧ c.sign H = f.rd.mac
       ∧ c.data = (if rm = [] then requestInput f.rd.originalId (stripTsig w s) (varsOf k f.rd none)
                   else responseInput rm f.rd.originalId (stripTsig w s) (varsOf k f.rd none))
       ∧ f.rd.error = 0 ∧ absDiff f.rd.timeSigned now ≤ f.rd.fudge
       ∧ nameEq k.name f.owner = true ∧ nameEq k.algorithm f.rd.algorithm = true := by
-  obtain ⟨s, p, owner, rd, c, c', hfe, _, a, _⟩ :=
-    accepted_of_read (verifyWith H) tbl strict w k now rm none false r f h hf
+  obtain ⟨s, p, owner, rd, k, c, c', hres, hfe, _, a, _⟩ :=
+    accepted_of_read_any (verifyWith H) tbl strict w kr now rm none false r f c0 m0 h hf hck
   subst hfe
   obtain ⟨_, he, ht, hn, ha, _, hv, _⟩ := validateV_ok _ tbl w k owner rd now rm s none false c c' a.valid
   obtain ⟨hdat, _⟩ := validate_digests_stripped_message _ tbl w k owner rd now rm s c c' a.valid
-  refine ⟨s, c, a.walk, rfl, ?_, hdat, he, ht, hn, ha⟩
+  refine ⟨s, c, k, a.walk, hres, rfl, ?_, hdat, he, ht, hn, ha⟩
   simpa [verifyWith] using hv
 
-/-- **the MAC input determines the authenticated content** (the message is self-delimiting, so no two
-different splittings of the digested octets are possible).  Two messages accepted as signed under the same key,
-request MAC, running context and `multi`, whose MAC inputs are the same octet string, have their TSIG RR at the
-same offset `s`, agree on *every octet from 2 to `s`* (all of the message but its ID, which RFC 8945 replaces by
-the original ID), and on original ID, time signed and fudge; stand-alone / first messages also on error and
-other data. -/
-theorem mac_input_determines_content (V1 V2 : Verifier) (tbl : List AlgEntry) (st1 st2 : Bool) (w1 w2 : Bytes) (k : Key)
-    (now1 now2 : Nat) (rm : Bytes) (ctx : Option Ctx) (multi : Bool) (r1 r2 : ReadOk) (f1 f2 : Found) (c1 c2 : Ctx)
-    (m1 m2 : Bytes) (ho1 : OctetsOk w1) (ho2 : OctetsOk w2)
-    (h1 : readV V1 tbl st1 w1 (.key k) now1 rm ctx multi = .ok r1) (hf1 : r1.tsig = some f1)
-    (h2 : readV V2 tbl st2 w2 (.key k) now2 rm ctx multi = .ok r2) (hf2 : r2.tsig = some f2)
+/-- **the MAC input determines every RFC 8945 digest component** (the digested string is self-delimiting — the
+message by its section counts, the two names as prefix-free codes — so no two different splittings of it are
+possible).  Two messages accepted as signed and checked under any two keyrings, with the same request MAC, running
+context and `multi`, whose MAC inputs are the same octet string, have their TSIG RR at the same offset `s`, the
+same §4.3.2 "DNS message" (hence agree on *every octet from 2 to `s`*: all of the message but its ID, which
+RFC 8945 replaces by the original ID), the same original ID, time signed and fudge; stand-alone / first messages
+also the same error and other data and the same canonical key name and algorithm name (§4.3.3: names are digested
+in canonical form, so their case and compression are not authenticated).  CLASS is ANY and — in the code as it is
+now — TTL is 0 in both, or they would not have been accepted. -/
+theorem mac_input_determines_content (V1 V2 : Verifier) (tbl : List AlgEntry) (st1 st2 : Bool) (w1 w2 : Bytes)
+    (kr1 kr2 : Keyring) (now1 now2 : Nat) (rm : Bytes) (ctx : Option Ctx) (multi : Bool) (r1 r2 : ReadOk) (f1 f2 : Found)
+    (c1 c2 : Ctx) (m1 m2 : Bytes) (ho1 : Tsig.OctetsOk w1) (ho2 : Tsig.OctetsOk w2)
+    (h1 : readV V1 tbl st1 w1 kr1 now1 rm ctx multi = .ok r1) (hf1 : r1.tsig = some f1)
+    (h2 : readV V2 tbl st2 w2 kr2 now2 rm ctx multi = .ok r2) (hf2 : r2.tsig = some f2)
     (hc1 : f1.checked = some (c1, m1)) (hc2 : f2.checked = some (c2, m2)) (hd : c1.data = c2.data) :
     ∃ s, walkTo w1 = some s ∧ walkTo w2 = some s ∧ (∀ i, 2 ≤ i → i < s → w1[i]? = w2[i]?)
+      ∧ message f1.rd.originalId (stripTsig w1 s) = message f2.rd.originalId (stripTsig w2 s)
       ∧ f1.rd.originalId = f2.rd.originalId ∧ f1.rd.timeSigned = f2.rd.timeSigned ∧ f1.rd.fudge = f2.rd.fudge
-      ∧ ((multi = false ∨ ctx = none) → f1.rd.error = f2.rd.error ∧ f1.rd.other = f2.rd.other) := by
-  obtain ⟨s1, p1, o1, rd1, c1', x1, e1, _, a1, _⟩ := accepted_of_read V1 tbl st1 w1 k now1 rm ctx multi r1 f1 h1 hf1
-  obtain ⟨s2, p2, o2, rd2, c2', x2, e2, _, a2, _⟩ := accepted_of_read V2 tbl st2 w2 k now2 rm ctx multi r2 f2 h2 hf2
+      ∧ ((multi = false ∨ ctx = none) → f1.rd.error = f2.rd.error ∧ f1.rd.other = f2.rd.other
+          ∧ canon f1.owner = canon f2.owner ∧ canon f1.rd.algorithm = canon f2.rd.algorithm) := by
+  obtain ⟨s1, p1, o1, rd1, k1, c1', x1, _, e1, _, a1, _⟩ :=
+    accepted_of_read_any V1 tbl st1 w1 kr1 now1 rm ctx multi r1 f1 c1 m1 h1 hf1 hc1
+  obtain ⟨s2, p2, o2, rd2, k2, c2', x2, _, e2, _, a2, _⟩ :=
+    accepted_of_read_any V2 tbl st2 w2 kr2 now2 rm ctx multi r2 f2 c2 m2 h2 hf2 hc2
   subst e1; subst e2
   simp only [Option.some.injEq, Prod.mk.injEq] at hc1 hc2
   obtain ⟨rfl, _⟩ := hc1
   obtain ⟨rfl, _⟩ := hc2
-  obtain ⟨hs, hb, _, r⟩ := same_input_same_content V1 V2 tbl w1 w2 k now1 now2 rm ctx multi s1 s2 p1 p2 o1 o2 rd1 rd2
-    c1' c2' x1 x2 ho1 ho2 a1 a2 hd
+  obtain ⟨hs, hb, hdrop, hoid, ht, hfu, hr⟩ := same_input_same_content V1 V2 tbl w1 w2 k1 k2 now1 now2 rm ctx multi s1 s2 p1 p2
+    o1 o2 rd1 rd2 c1' c2' x1 x2 ho1 ho2 a1 a2 hd
   subst hs
-  exact ⟨s1, a1.walk, a2.walk, hb, r⟩
+  obtain ⟨_, _, _, hn1, ha1, _⟩ := validateV_ok V1 tbl w1 k1 o1 rd1 now1 rm s1 ctx multi c1' x1 a1.valid
+  obtain ⟨_, _, _, hn2, ha2, _⟩ := validateV_ok V2 tbl w2 k2 o2 rd2 now2 rm s1 ctx multi c2' x2 a2.valid
+  refine ⟨s1, a1.walk, a2.walk, hb, ?_, hoid, ht, hfu, fun hfirst => ?_⟩
+  · simp only [message, ← newWire_eq_stripTsig, hdrop, hoid]
+  · obtain ⟨he, hot, hkn, hka⟩ := hr hfirst
+    refine ⟨he, hot, ?_, ?_⟩
+    · have e1 : canon o1 = canon k1.name := by
+        rw [← digestable_eq_canon, ← digestable_eq_canon]; unfold digestable; rw [(nameEq_iff _ _).mp hn1]
+      have e2 : canon o2 = canon k2.name := by
+        rw [← digestable_eq_canon, ← digestable_eq_canon]; unfold digestable; rw [(nameEq_iff _ _).mp hn2]
+      rw [e1, e2, hkn]
+    · have e1 : canon rd1.algorithm = canon k1.algorithm := by
+        rw [← digestable_eq_canon, ← digestable_eq_canon]; unfold digestable; rw [(nameEq_iff _ _).mp ha1]
+      have e2 : canon rd2.algorithm = canon k2.algorithm := by
+        rw [← digestable_eq_canon, ← digestable_eq_canon]; unfold digestable; rw [(nameEq_iff _ _).mp ha2]
+      rw [e1, e2, hka]
 
-/-- "rejects any single-bit alteration of authenticated content": **every single-bit alteration is rejected by
-parsing / a check, or changes the (MAC input, MAC) pair** — unless the bit lies in the message ID, in the owner
-name of the TSIG RR (`s`…`p`), in the algorithm name (from `p+10` up to the fixed-layout tail of the RDATA) or,
-as shipped (`strict = false`), in the 4 TTL octets `p+4`…`p+7` of the TSIG RR.  Stated contrapositively: if the
-genuine message and the message with bit `i` flipped are both returned as signed, then the pairs differ or `i`
-is in one of those places.  (ID and name *case* are not authenticated by RFC 8945; the TTL is — that disjunct
-is the recorded finding and disappears for `strict = true`.) -/
-theorem bitflip_changes_input (V V' : Verifier) (tbl : List AlgEntry) (strict : Bool) (w : Bytes) (k : Key) (now now' : Nat)
-    (rm : Bytes) (ctx : Option Ctx) (multi : Bool) (r r' : ReadOk) (f f' : Found) (i : Nat)
-    (ho : OctetsOk w) (hi : i < 8 * w.length) (hfirst : multi = false ∨ ctx = none)
-    (h : readV V tbl strict w (.key k) now rm ctx multi = .ok r) (hf : r.tsig = some f)
-    (h' : readV V' tbl strict (flipBit w i) (.key k) now' rm ctx multi = .ok r') (hf' : r'.tsig = some f') :
+/-- where an altered bit can hide, for both variants of the TTL decision point (`strict = true`: the code as it is
+now, a TSIG RR with a non-zero TTL is BadTSIG; `strict = false`: the code as it was shipped) and every kind of
+keyring.  If the genuine message and the message with bit `i` flipped are both returned as signed and checked, then
+the (MAC input, MAC) pairs differ, or `i` is in the message ID, in the owner name of the TSIG RR (`s`…`p`), in the
+algorithm name (from `p+10` up to the fixed-layout tail of the RDATA) or — in the as-shipped variant only — in the
+4 TTL octets `p+4`…`p+7`. -/
+theorem bitflip_location_variants (V V' : Verifier) (tbl : List AlgEntry) (strict : Bool) (w : Bytes) (kr : Keyring)
+    (now now' : Nat) (rm : Bytes) (ctx : Option Ctx) (multi : Bool) (r r' : ReadOk) (f f' : Found) (i : Nat)
+    (ho : Tsig.OctetsOk w) (hi : i < 8 * w.length) (hfirst : multi = false ∨ ctx = none)
+    (h : readV V tbl strict w kr now rm ctx multi = .ok r) (hf : r.tsig = some f) (hck : f.checked ≠ none)
+    (h' : readV V' tbl strict (flipBit w i) kr now' rm ctx multi = .ok r') (hf' : r'.tsig = some f')
+    (hck' : f'.checked ≠ none) :
     ∃ s p c c', walkTo w = some s ∧ skipName w w.length (w.length + 1) s = some p
       ∧ f.checked = some (c, f.rd.mac) ∧ f'.checked = some (c', f'.rd.mac)
       ∧ ((c'.data ≠ c.data ∨ f'.rd.mac ≠ f.rd.mac)
           ∨ i < 16 ∨ (8 * s ≤ i ∧ i < 8 * p)
           ∨ (strict = false ∧ 8 * (p + 4) ≤ i ∧ i < 8 * (p + 8))
           ∨ (8 * (p + 10) ≤ i ∧ i / 8 + (tsigTail f.rd).length < w.length)) := by
-  obtain ⟨s, p, o, rd, c, c1, e, _, a, hst⟩ := accepted_of_read V tbl strict w k now rm ctx multi r f h hf
-  obtain ⟨s', p', o', rd', c', c1', e', _, a', hst'⟩ := accepted_of_read V' tbl strict (flipBit w i) k now' rm ctx multi r' f' h' hf'
+  obtain ⟨⟨c0, m0⟩, hc0⟩ := Option.ne_none_iff_exists'.mp hck
+  obtain ⟨⟨c0', m0'⟩, hc0'⟩ := Option.ne_none_iff_exists'.mp hck'
+  obtain ⟨s, p, o, rd, k, c, c1, _, e, _, a, hst⟩ := accepted_of_read_any V tbl strict w kr now rm ctx multi r f c0 m0 h hf hc0
+  obtain ⟨s', p', o', rd', k', c', c1', _, e', _, a', hst'⟩ :=
+    accepted_of_read_any V' tbl strict (flipBit w i) kr now' rm ctx multi r' f' c0' m0' h' hf' hc0'
   subst e; subst e'
   refine ⟨s, p, c, c', a.walk, a.name, rfl, rfl, ?_⟩
   dsimp only
   by_cases hpair : c'.data = c.data ∧ rd'.mac = rd.mac
   · right
     have hi8 : i / 8 < w.length := by omega
-    rcases flip_same_pair_location V V' tbl w k now now' rm ctx multi s p s' p' o o' rd rd' c c' c1 c1' i ho hi8 hfirst
+    rcases flip_same_pair_location V V' tbl w k k' now now' rm ctx multi s p s' p' o o' rd rd' c c' c1 c1' i ho hi8 hfirst
       a a' hpair.1 hpair.2 with h1 | h1 | h1 | h1
     · left; omega
     · right; left; omega
@@ -384,43 +421,93 @@ theorem bitflip_changes_input (V V' : Verifier) (tbl : List AlgEntry) (strict : 
     · right; intro hm; exact hpair ⟨hd, hm⟩
     · left; exact hd
 
-/-- the consequence under an explicit unforgeability hypothesis about the external HMAC (never an axiom):
-suppose that, among contexts keyed with `k`'s secret, only the genuine (input, MAC) pair verifies.  Then *every*
-single-bit alteration outside the message ID, the TSIG owner name and the algorithm name — and, for the code as
-shipped (`strict = false`), outside the TTL field of the TSIG RR: this is the explicit guard that makes the
-statement `_partial` — is rejected or comes back as an unsigned message.
+/-- "rejects any single-bit alteration of authenticated content" — the code as it is now (`strict = true`), any
+keyring.  **Every single-bit alteration is rejected by parsing / a check, or changes the (MAC input, MAC) pair,
+or leaves every RFC 8945 digest component unchanged.**  Contrapositively: if the genuine message and the message
+with bit `i` flipped are both returned as signed and checked and the same pair reached the comparison, then the
+canonical owner and algorithm names are unchanged and `i` lies
 
-Full statement (what the property demands, true of the `strict = true` variant, see `altered_bit_rejected`):
-the same without the TTL guard.  It is false as shipped: `ttl_bit_accepted_asShipped`. -/
-theorem altered_bit_rejected_partial (strict : Bool) (H : Hmac) (tbl : List AlgEntry) (w : Bytes) (k : Key) (now now' : Nat) (rm : Bytes)
-    (r : ReadOk) (f : Found) (c : Ctx) (i s p : Nat) (ho : OctetsOk w) (hi : i < 8 * w.length)
-    (h : read H tbl strict w (.key k) now rm none false = .ok r) (hf : r.tsig = some f)
+* in the message ID (octets 0–1): RFC 8945 §4.3.2 digests the message "with the original message ID" taken from
+  the TSIG RR, so the ID on the wire is deliberately not authenticated (forwarders rewrite it); or
+* inside the owner-name encoding of the TSIG RR (`s`…`p`), the decoded name still being the same canonical name:
+  §4.3.3 digests the key NAME "in canonical wire format" (lower case, uncompressed), and names are compared
+  case-insensitively, so only the case of letters (or an equivalent encoding of the same name) can differ; or
+* inside the algorithm-name encoding (`p+10` up to the fixed-layout tail of the RDATA), likewise with the same
+  canonical algorithm name.
+
+Nothing else: not the flags, counts, question or any record, not TYPE/CLASS/TTL/RDLENGTH of the TSIG RR, not
+time signed, fudge, MAC size, MAC, original ID, error, other length or other data. -/
+theorem bitflip_changes_input (V V' : Verifier) (tbl : List AlgEntry) (w : Bytes) (kr : Keyring) (now now' : Nat)
+    (rm : Bytes) (ctx : Option Ctx) (multi : Bool) (r r' : ReadOk) (f f' : Found) (i : Nat)
+    (ho : Tsig.OctetsOk w) (hi : i < 8 * w.length) (hfirst : multi = false ∨ ctx = none)
+    (h : readV V tbl true w kr now rm ctx multi = .ok r) (hf : r.tsig = some f) (hck : f.checked ≠ none)
+    (h' : readV V' tbl true (flipBit w i) kr now' rm ctx multi = .ok r') (hf' : r'.tsig = some f')
+    (hck' : f'.checked ≠ none) :
+    ∃ s p c c', walkTo w = some s ∧ skipName w w.length (w.length + 1) s = some p
+      ∧ f.checked = some (c, f.rd.mac) ∧ f'.checked = some (c', f'.rd.mac)
+      ∧ ((c'.data ≠ c.data ∨ f'.rd.mac ≠ f.rd.mac)
+          ∨ (canon f'.owner = canon f.owner ∧ canon f'.rd.algorithm = canon f.rd.algorithm
+              ∧ (i < 16 ∨ (8 * s ≤ i ∧ i < 8 * p)
+                  ∨ (8 * (p + 10) ≤ i ∧ i / 8 + (tsigTail f.rd).length < w.length)))) := by
+  obtain ⟨s, p, c, c', hs, hp, hc, hc', hcase⟩ :=
+    bitflip_location_variants V V' tbl true w kr now now' rm ctx multi r r' f f' i ho hi hfirst h hf hck h' hf' hck'
+  refine ⟨s, p, c, c', hs, hp, hc, hc', ?_⟩
+  by_cases hd : c'.data = c.data
+  case neg => exact Or.inl (Or.inl hd)
+  rcases hcase with h1 | h1
+  · exact Or.inl h1
+  · right
+    obtain ⟨_, _, _, _, _, _, _, _, hnames⟩ := mac_input_determines_content V' V tbl true true (flipBit w i) w kr kr now' now rm
+      ctx multi r' r f' f c' c _ _ (flipBit_octets w i ho) ho h' hf' h hf hc' hc hd
+    obtain ⟨_, _, hco, hca⟩ := hnames hfirst
+    refine ⟨hco, hca, ?_⟩
+    rcases h1 with h1 | h1 | h1 | h1
+    · exact Or.inl h1
+    · exact Or.inr (Or.inl h1)
+    · simp at h1
+    · exact Or.inr (Or.inr h1)
+
+/-- the consequence under an explicit unforgeability hypothesis about the external HMAC (never an axiom):
+suppose that, among contexts keyed with a secret the keyring can resolve, only the genuine (input, MAC) pair
+verifies.  Then *every* single-bit alteration outside the message ID, the TSIG owner-name encoding and the
+algorithm-name encoding is rejected or comes back without a checked TSIG.  Stated for both variants of the TTL
+decision point and any keyring: for the retained as-shipped variant (`strict = false`) the TTL field must be
+excluded by the explicit guard `hguard` (see `ttl_bit_accepted_in_asShipped_variant`); for the code as it is now
+the guard is vacuous and the statement is `altered_bit_rejected` below. -/
+theorem altered_bit_rejected_variants (strict : Bool) (H : Hmac) (tbl : List AlgEntry) (w : Bytes) (kr : Keyring)
+    (now now' : Nat) (rm : Bytes)
+    (r : ReadOk) (f : Found) (c : Ctx) (i s p : Nat) (ho : Tsig.OctetsOk w) (hi : i < 8 * w.length)
+    (h : read H tbl strict w kr now rm none false = .ok r) (hf : r.tsig = some f)
     (hc : f.checked = some (c, f.rd.mac)) (hs : walkTo w = some s) (hp : skipName w w.length (w.length + 1) s = some p)
-    (hunf : ∀ (c' : Ctx) (m' : Bytes), c'.secret = k.secret → verifyWith H c' m' = true → c'.data = c.data ∧ m' = f.rd.mac)
+    (hunf : ∀ (c' : Ctx) (m' : Bytes), (∃ o rd k', resolveKey kr o rd = .ok (some k') ∧ c'.secret = k'.secret) →
+      verifyWith H c' m' = true → c'.data = c.data ∧ m' = f.rd.mac)
     (hbit : 16 ≤ i ∧ ¬ (8 * s ≤ i ∧ i < 8 * p) ∧ ¬ (8 * (p + 10) ≤ i ∧ i / 8 + (tsigTail f.rd).length < w.length))
     (hguard : strict = false → ¬ (8 * (p + 4) ≤ i ∧ i < 8 * (p + 8))) :
-    ∀ r', read H tbl strict (flipBit w i) (.key k) now' rm none false = .ok r' → r'.tsig = none := by
-  intro r' h'
-  cases hf' : r'.tsig with
+    ∀ r', read H tbl strict (flipBit w i) kr now' rm none false = .ok r' →
+      ∀ f', r'.tsig = some f' → f'.checked = none := by
+  intro r' h' f' hf'
+  cases hck' : f'.checked with
   | none => rfl
-  | some f' =>
+  | some cm =>
     exfalso
+    have hck : f.checked ≠ none := by rw [hc]; simp
+    have hck'' : f'.checked ≠ none := by rw [hck']; simp
     obtain ⟨s0, p0, c0, c', hs0, hp0, hc0, hc', hcase⟩ :=
-      bitflip_changes_input (verifyWith H) (verifyWith H) tbl strict w k now now' rm none false r r' f f' i ho hi (Or.inl rfl)
-        h hf h' hf'
+      bitflip_location_variants (verifyWith H) (verifyWith H) tbl strict w kr now now' rm none false r r' f f' i ho hi
+        (Or.inl rfl) h hf hck h' hf' hck''
     rw [hs] at hs0; cases hs0
     rw [hp] at hp0; cases hp0
     rw [hc] at hc0
     simp only [Option.some.injEq, Prod.mk.injEq, and_true] at hc0
     subst hc0
     -- the altered message's pair verified, so it is the genuine pair
-    obtain ⟨s2, p2, o2, rd2, c2, c2', e2, _, a2, _⟩ :=
-      accepted_of_read (verifyWith H) tbl strict (flipBit w i) k now' rm none false r' f' h' hf'
+    obtain ⟨s2, p2, o2, rd2, k2, c2, c2', hres2, e2, _, a2, _⟩ :=
+      accepted_of_read_any (verifyWith H) tbl strict (flipBit w i) kr now' rm none false r' f' cm.1 cm.2 h' hf' (by rw [hck'])
     subst e2
     have hcc : c2 = c' := by simpa using hc'
     rw [← hcc] at hcase
-    obtain ⟨_, _, _, _, _, hdig, hv, _⟩ := validateV_ok _ tbl _ k o2 rd2 now' rm s2 none false c2 c2' a2.valid
-    have hsec : c2.secret = k.secret := by
+    obtain ⟨_, _, _, _, _, hdig, hv, _⟩ := validateV_ok _ tbl _ k2 o2 rd2 now' rm s2 none false c2 c2' a2.valid
+    have hsec : c2.secret = k2.secret := by
       unfold digest at hdig
       simp only [Bool.false_eq_true, if_false] at hdig
       split at hdig; · cases hdig
@@ -432,7 +519,7 @@ theorem altered_bit_rejected_partial (strict : Bool) (H : Hmac) (tbl : List AlgE
       · cases hc00
         by_cases hr : rm = [] <;> simp [Ctx.update, hr]
       · cases hc00
-    obtain ⟨hd, hm⟩ := hunf c2 rd2.mac hsec hv
+    obtain ⟨hd, hm⟩ := hunf c2 rd2.mac ⟨o2, rd2, k2, hres2, hsec⟩ hv
     rcases hcase with h1 | h1 | h1 | h1 | h1
     · rcases h1 with h1 | h1
       · exact h1 hd
@@ -442,16 +529,32 @@ theorem altered_bit_rejected_partial (strict : Bool) (H : Hmac) (tbl : List AlgE
     · exact hguard h1.1 h1.2
     · exact hbit.2.2 h1
 
-/-- "Validation rejects every message whose authenticated content was altered in any bit", for the intended
-variant (a TSIG RR with a non-zero TTL is a format error): no guard on the TTL field. -/
-theorem altered_bit_rejected (H : Hmac) (tbl : List AlgEntry) (w : Bytes) (k : Key) (now now' : Nat) (rm : Bytes)
-    (r : ReadOk) (f : Found) (c : Ctx) (i s p : Nat) (ho : OctetsOk w) (hi : i < 8 * w.length)
-    (h : read H tbl true w (.key k) now rm none false = .ok r) (hf : r.tsig = some f)
+/-- "Validation rejects every message whose authenticated content was altered in any bit" — the code as it is
+now (the TTL repair 62699df is in: a TSIG RR with a non-zero TTL is BadTSIG), any keyring, no guard on the TTL
+field: every bit of the message from the flags to the last octet of the other data, except the encodings of the
+two names, is covered. -/
+theorem altered_bit_rejected (H : Hmac) (tbl : List AlgEntry) (w : Bytes) (kr : Keyring) (now now' : Nat) (rm : Bytes)
+    (r : ReadOk) (f : Found) (c : Ctx) (i s p : Nat) (ho : Tsig.OctetsOk w) (hi : i < 8 * w.length)
+    (h : read H tbl true w kr now rm none false = .ok r) (hf : r.tsig = some f)
     (hc : f.checked = some (c, f.rd.mac)) (hs : walkTo w = some s) (hp : skipName w w.length (w.length + 1) s = some p)
-    (hunf : ∀ (c' : Ctx) (m' : Bytes), c'.secret = k.secret → verifyWith H c' m' = true → c'.data = c.data ∧ m' = f.rd.mac)
+    (hunf : ∀ (c' : Ctx) (m' : Bytes), (∃ o rd k', resolveKey kr o rd = .ok (some k') ∧ c'.secret = k'.secret) →
+      verifyWith H c' m' = true → c'.data = c.data ∧ m' = f.rd.mac)
     (hbit : 16 ≤ i ∧ ¬ (8 * s ≤ i ∧ i < 8 * p) ∧ ¬ (8 * (p + 10) ≤ i ∧ i / 8 + (tsigTail f.rd).length < w.length)) :
-    ∀ r', read H tbl true (flipBit w i) (.key k) now' rm none false = .ok r' → r'.tsig = none :=
-  altered_bit_rejected_partial true H tbl w k now now' rm r f c i s p ho hi h hf hc hs hp hunf hbit (by simp)
+    ∀ r', read H tbl true (flipBit w i) kr now' rm none false = .ok r' →
+      ∀ f', r'.tsig = some f' → f'.checked = none :=
+  altered_bit_rejected_variants true H tbl w kr now now' rm r f c i s p ho hi h hf hc hs hp hunf hbit (by simp)
+
+/-- what `Message.use_tsig` picks from each kind of keyring: the key itself; a `dict` entry found by name (a
+`bytes` secret becomes a `Key` with the given name and algorithm); what a callable returns for the name -/
+theorem use_tsig_key (k : Key) (alg : Name) (n : Name) (f : Name → Option Key) (es : List (Name × KeyVal)) :
+    useTsig (.key k) (some n) alg = some (k, k.name)
+      ∧ useTsig (.callable f) (some n) alg = (f n).map (fun k => (k, n))
+      ∧ (∀ sec, es.find? (fun e => nameEq e.1 n) = some (n, .secret sec) →
+          useTsig (.dict es) (some n) alg = some (⟨n, sec, alg⟩, n))
+      ∧ useTsig .absent (some n) alg = none := by
+  refine ⟨rfl, rfl, ?_, rfl⟩
+  intro sec h
+  simp [useTsig, h]
 
 /-! ## non-vacuity -/
 
@@ -480,7 +583,7 @@ example :
       ∧ exSigned.1.length = exBody.length + (tsigRR [1, 107, 0] exSigned.2).length
       ∧ okOf (Tsig.validate exH algTable exSigned.1 exKey exKey.name exSigned.2 1299 [] exBody.length none false)
           = some none := by
-  unfold OctetsOk
+  unfold Tsig.OctetsOk
   decide +kernel
 
 /-- `reject_logic` distinguishes its branches: accepted at the edge of the window, BadTime one second later,
@@ -517,19 +620,69 @@ example :
       ∧ exAccepted true (flipBit exSigned.1 3) 1299 = exAccepted true exSigned.1 1299
       ∧ exAccepted true (flipBit exSigned.1 110) 1299 = none
       ∧ exAccepted true (flipBit exSigned.1 (8 * 50)) 1299 = none := by
-  unfold OctetsOk
+  unfold Tsig.OctetsOk
   decide +kernel
 
-/-- **the recorded finding, in the model of the code as shipped**: bit 215 is the last bit of the TTL field of the
-TSIG RR (octets 26–29) of the genuine message; altering it leaves the message accepted with the very same (MAC
-input, MAC) pair, so no hypothesis about the HMAC can exclude it.  The negation of the unguarded statement for
-`strict = false`; with `strict = true` the same alteration is rejected. -/
-theorem ttl_bit_accepted_asShipped :
+/-- the keyring-generic theorems are not vacuous for the other keyring shapes: the same message is accepted and
+checked through a `dict` holding the bare secret, a `dict` holding the `Key`, and a callable; a keyring that does
+not know the name, or none at all, is UnknownTSIGKey -/
+example :
+    let isChecked := fun (kr : Keyring) => match read exH algTable true exSigned.1 kr 1299 [] none false with
+      | .ok r => (r.tsig.bind (·.checked)).isSome
+      | .error _ => false
+    isChecked (.dict [(exKey.name, .secret exKey.secret)]) = true
+      ∧ isChecked (.dict [([[120], []], .key exKey), (exKey.name, .key exKey)]) = true
+      ∧ isChecked (.callable fun n => if nameEq n exKey.name then some exKey else none) = true
+      ∧ errOf (read exH algTable true exSigned.1 (.dict [([[120], []], .key exKey)]) 1299 [] none false) = some .unknownTSIGKey
+      ∧ errOf (read exH algTable true exSigned.1 (.callable fun _ => none) 1299 [] none false) = some .unknownTSIGKey
+      ∧ errOf (read exH algTable true exSigned.1 .absent 1299 [] none false) = some .unknownTSIGKey := by
+  decide +kernel
+
+/-- a statement about the **retained as-shipped model variant only** (`strict = false`, the code before the repair
+62699df; the check probes the working tree and demands correspondence with `strict = true` now): bit 215 is the
+last bit of the TTL field of the TSIG RR (octets 26–29) of the genuine message; in that variant altering it leaves
+the message accepted with the very same (MAC input, MAC) pair, so the guard `hguard` of
+`altered_bit_rejected_variants` cannot be dropped there.  In the current variant the same alteration is rejected. -/
+theorem ttl_bit_accepted_in_asShipped_variant :
     8 * (22 + 4) ≤ 215 ∧ 215 < 8 * (22 + 8)
       ∧ (exAccepted false exSigned.1 1299).isSome = true
       ∧ exAccepted false (flipBit exSigned.1 215) 1299 = exAccepted false exSigned.1 1299
       ∧ exAccepted true (flipBit exSigned.1 215) 1299 = none := by
   decide +kernel
+
+/-- the hypotheses of `sign_then_read` are satisfiable: the body, key and template of the examples above with the
+plain owner encoding and an HMAC stand-in of 32 octets form a `SignedOk` envelope, at any signing time and any
+verification time within the fudge of 300 s -/
+private theorem exSignedOk (now vnow : Nat) (ht : now < 281474976710656) (hw : absDiff now vnow ≤ 300) :
+    SignedOk (fun _ k d => (k ++ d).take 32) exKey exBody (toWire exKey.name) exKey.name exRd now vnow where
+  alg := ⟨⟨exKey.algorithm, 4, 32, 0, 32⟩, by decide, rfl⟩
+  bodyOk := ⟨by decide, by unfold Tsig.OctetsOk; decide, ⟨19, 19, 19, by decide +kernel, by decide +kernel, by decide +kernel, by decide +kernel⟩⟩
+  cnt := by decide
+  enc := ownerEncodes_plain _ _ (by refine ⟨?_, ?_, ?_⟩ <;> decide) (by decide)
+  own := nameEq_refl _
+  rdalg := rfl
+  algWf := by refine ⟨?_, ?_, ?_⟩ <;> decide
+  algAbs := by decide
+  err := rfl
+  time := ht
+  fudge := by decide
+  oid := by decide
+  hmac := fun _ k d => by simp; omega
+  size := by decide
+  win := hw
+
+/-- … and so are those of `sign_then_read_exchange`: signed, unsigned, unsigned, signed -/
+example : ∀ e ∈ [SEnv.signed exBody (toWire exKey.name) exKey.name exRd 1000 1299, SEnv.unsigned exBody 1300,
+      SEnv.unsigned exBody 1300, SEnv.signed exBody (toWire exKey.name) exKey.name exRd 1001 1301],
+    SEnv.Ok (fun _ k d => (k ++ d).take 32) exKey e := by
+  intro e he
+  simp only [List.mem_cons, List.not_mem_nil, or_false] at he
+  have hb : BodyOk exBody := (exSignedOk 0 0 (by decide) (by decide)).bodyOk
+  rcases he with rfl | rfl | rfl | rfl
+  · exact exSignedOk 1000 1299 (by decide) (by decide)
+  · exact hb
+  · exact hb
+  · exact exSignedOk 1001 1301 (by decide) (by decide)
 
 /-- two request MACs of different length and of equal length (hypothesis of `request_mac_binding`) -/
 example : ([] : Bytes) ≠ [0] ∧ ([1, 2] : Bytes) ≠ [1, 3] := by decide
